@@ -89,6 +89,24 @@ SpaceVars(e) == {SpaceOf(e)[i][1] : i \in DOMAIN SpaceOf(e)}
 Coords(e, Q) == {c \in SpaceVars(e) \X (1..3) : c[2] \in DOMAIN Q.val[c[1]]}
 Moved(Q, c, d) == [Q EXCEPT !.val[c[1]][c[2]] = @ + d * Q.w]
 Stencil(e, Q, eps) == {Q} \cup {Moved(Q, c, eps) : c \in Coords(e, Q)} \cup {Moved(Q, c, -eps) : c \in Coords(e, Q)}
+\* the full box stencil: every combination of -eps, 0, +eps on the coordinates (3^d points); needed where the
+\* other side of the boundary is only reachable diagonally (re-entrant corners)
+BoxShifts(e, Q, eps) == [Coords(e, Q) -> {-eps, 0, eps}]
+ShiftAll(Q, sh) == [Q EXCEPT !.val = [n \in DOMAIN Q.val |->
+                       [i \in DOMAIN Q.val[n] |-> IF <<n, i>> \in DOMAIN sh THEN Q.val[n][i] + sh[<<n, i>>] * Q.w ELSE Q.val[n][i]]]]
+StencilBox(e, Q, eps) == {ShiftAll(Q, sh) : sh \in BoxShifts(e, Q, eps)}
+NearBdBox(e, Q, eps) == {In(e, P) : P \in StencilBox(e, Q, eps)} = {TRUE, FALSE}
+\* number of primitive leaves of e whose OWN boundary passes within eps of Q (Q transported into the leaf's frame)
+RECURSIVE LeafBdCount(_, _, _)
+LeafBdCount(e, Q, eps) ==
+  CASE e.k \in {"interval", "point", "par", "tri", "circle", "sphere"} -> IF NearBdBox(e, Q, eps) THEN 1 ELSE 0
+    [] e.k \in {"union", "cut", "and", "prod"} -> LeafBdCount(e.l, Q, eps) + LeafBdCount(e.r, Q, eps)
+    [] e.k = "trans" -> LET t == AffV(e.t, Q) IN
+                        LeafBdCount(e.d, WithVal(Q, e.v, [i \in DOMAIN t |-> Q.val[e.v][i] - t[i]]), eps)
+    [] e.k = "rot"   -> LET m == RotTab[e.m]  c == m[1]  s == m[2]  h == m[3]  p == AffV(e.p, Q)
+                            qx == Q.val[e.v][1] - p[1]   qy == Q.val[e.v][2] - p[2]
+                        IN LeafBdCount(e.d, Rescale(Q, e.v, << c * qx + s * qy + p[1] * h, -s * qx + c * qy + p[2] * h >>, h), eps)
+    [] OTHER -> 0
 \* within eps of the (topological) boundary of Den(e): the eps-stencil is mixed
 NearBd(e, Q, eps) == {In(e, P) : P \in Stencil(e, Q, eps)} = {TRUE, FALSE}
 \* in the closed set up to tolerance
